@@ -60,10 +60,25 @@ func cmdCrashProbe(args []string) {
 		line, err := rd.ReadBytes('\n')
 		if len(bytes.TrimSpace(line)) > 0 {
 			var o struct {
-				B []int `json:"b"`
+				B   []int   `json:"b"`
+				Gen *bigGen `json:"gen"` // a large generated input (see c06.go) instead of literal bytes
 			}
 			must(json.Unmarshal(line, &o))
 			n++
+			if o.Gen != nil {
+				// sent completely, however long the server takes to read it (a parser that reads byte by byte needs a while)
+				if c, err := net.DialTimeout("tcp", fmt.Sprintf("127.0.0.1:%d", port), time.Second); err == nil {
+					c.SetDeadline(time.Now().Add(120 * time.Second))
+					c.Write(o.Gen.build())
+					c.(*net.TCPConn).CloseWrite()
+					buf := make([]byte, 512)
+					c.Read(buf)
+					c.Close()
+				}
+				d, s := probe(port)
+				rec.Emit(Ev{"ev": "obs", "kind": "probe", "port": "plain", "dialed": d, "served": s && witnessOK(), "where": fmt.Sprintf("after generated input %d (%s x %d)", n, o.Gen.Gen, o.Gen.N), "phase": "running"})
+				continue
+			}
 			if n%*every == 1 {
 				rec.Emit(Ev{"ev": "point", "point": "input", "id": fmt.Sprint(n), "gated": false})
 				rec.w.Flush()
